@@ -329,8 +329,11 @@ def judge(fam, ops, masked=True):
     return None
 
 
-def shrink(fam, ops, r, budget=50):
-    """delta debugging keeping the kind of failure; never accepts a candidate the spec would make wait"""
+def shrink(fam, ops, r, budget=50, wall_s=40.0):
+    """delta debugging keeping the kind of failure; never accepts a candidate the spec would make wait;
+    bounded in tries and wall-clock time (an edit that makes every run crawl must not turn the check into hours)"""
+    import time
+    t_end = time.time() + wall_s
     def ok(c):
         r2 = judge(fam, c)
         return r2 is not None and r2["kind"] == r["kind"] and "TIMEOUT" not in r2.get("impl", "") and "wait" not in r2["detail"]
@@ -339,9 +342,9 @@ def shrink(fam, ops, r, budget=50):
     if hung:
         return cur
     tries, chunk = 0, max(1, len(cur) // 2)
-    while chunk >= 1 and tries < budget:
+    while chunk >= 1 and tries < budget and time.time() < t_end:
         i, progressed = 0, False
-        while i < len(cur) and tries < budget:
+        while i < len(cur) and tries < budget and time.time() < t_end:
             cand = cur[:i] + cur[i + chunk:]
             if not cand:
                 i += chunk
@@ -380,9 +383,12 @@ class Runner:
         self.reported = 0
         self.validated = 0
         self.cases = 0
+        import time
+        self.t0 = time.time()
 
     def enough(self):
-        return self.reported >= 3
+        import time
+        return self.reported >= 3 or (self.reported >= 1 and time.time() - self.t0 > 120)
 
     def one(self, ops):
         r = judge(self.fam, ops)
@@ -585,7 +591,7 @@ def gen_history(rng, chk, n, sem_w=1.0, shm_w=1.0, kills=True, inode_reuse=False
 def run_stress(chk, exe, args, label):
     d = tempfile.mkdtemp(prefix="pvsysv-%d-%d-" % (os.getpid(), next(_counter)), dir="/dev/shm" if os.path.isdir("/dev/shm") else pv.CACHE)
     try:
-        rc, out, err = pv.run_proc([exe] + [str(a) for a in args], "", timeout=240, env={"TMPDIR": d})
+        rc, out, err = pv.run_proc([exe] + [str(a) for a in args], "", timeout=240, env={"TMPDIR": d, "PVIPC_IDLOG": d + ".ids"})
         open(d + ".ids", "a").close()
         pv.run_proc([exe, "cleanup", d, d + ".ids"], "", 30, None)
     finally:
@@ -678,6 +684,7 @@ def run_c06(chk, cfg, exhaustive_cases):
         probe(chk, fam, sig, klass, ops, at, what)
     for (n, v, it) in (((6, 1, 2000), (8, 3, 2000)) if thorough else ((4, 2, 300),)):
         run_stress(chk, exe, ["stress-sem", n, v, it], "C06 v-exclusion stress")
+    run_stress(chk, exe, ["eintr-wait"], "C06 acquire sleeping in semop under handled signals")
     after = ipcs_count()
     chk.cov["sysv_histories"] = R.cases
     chk.cov["sysv_histories_validated_against_spec"] = R.validated
@@ -754,6 +761,7 @@ def run_c07(chk, cfg, basic):
         probe(chk, fam4, sig, klass, ops, at, what)
     for (n, it) in (((4, 10000), (8, 4000)) if thorough else ((4, 1000),)):
         run_stress(chk, exe, ["stress-shm", n, it], "C07 lock stress")
+    run_stress(chk, exe, ["eintr-wait"], "C07 p_shm_lock sleeping in semop under handled signals")
     after = ipcs_count()
     chk.cov["sysv_histories"] = R.cases + R4.cases
     chk.cov["sysv_histories_validated_against_spec"] = R.validated + R4.validated
